@@ -15,6 +15,6 @@ theorem commute_notPowell (u : Nat → R) (s : Cfg R) (a b : Op R) (hk : s.kind 
   simp [Independent, writes, reads, fin, finFp, disj] at h <;>
   simp [apply2, apply, Cfg.finalize, Cfg.setGenMon, Cfg.setEvalMon, Cfg.setStrictRanges, Cfg.setLimits,
     Cfg.setRandom, Cfg.setInitial, Cfg.gens, Cfg.pl, hk, h]
-  all_goals sorry
+
 
 end MysticVerif.Config
